@@ -16,7 +16,7 @@ from __future__ import annotations
 import hashlib
 from pathlib import Path
 
-from mc.core import bfs, boot
+from mc.core import bfs, boot, sandbox
 
 PROPERTY = "C16"
 LEVEL = "model_checking"
@@ -358,20 +358,34 @@ class Step:
             i_out = _outcome(exc)
             if i_out == "ok" and m_out == "ok":
                 for old_label, new_label, at in follow:
-                    old = w.objs[old_label]
-                    if old.aliases and w.objs[new_label].__class__.__name__ == "Alias" and w.m_target.get(new_label) is None:
+                    # followers are taken from the MODEL (aliases attached to the tree and what they target there), never from the
+                    # implementation's own back-reference table, which is the thing under test
+                    attached = {node.label: p for p, (node, _) in w.m_paths().items() if node.kind == "alias"}
+
+                    before = dict(w.m_target)  # the model's targets as they were when the replacement happened
+
+                    def is_alias_label(t):
+                        return isinstance(t, int) and t in w.objs and w.objs[t].__class__.__name__ == "Alias"
+
+                    def chain_end(label, hops=0):
+                        # through attached and detached alias objects alike (an alias can be left pointing at an alias object that was displaced)
+                        t = before.get(label)
+                        while is_alias_label(t) and hops < 10:
+                            t, hops = before.get(t), hops + 1
+                        return t
+
+                    direct = [l for l in attached if before.get(l) == old_label]
+                    if direct and w.objs[new_label].__class__.__name__ == "Alias" and w.m_target.get(new_label) is None:
                         # registering a back-reference on a replacing *alias* reads its final target: resolution side effect
                         w.tainted = True
                         w.m_target[new_label] = "?"
-                    for apath, alias in list(old.aliases.items()):
-                        al_label = next((l for l, o in w.objs.items() if o is alias), None)
-                        if al_label is None:
-                            continue
-                        was_target = w.m_target.get(al_label)
+                    new = w.objs[new_label]
+                    for al_label, apath in attached.items():
+                        alias = w.objs[al_label]
+                        was_target = before.get(al_label)
                         if was_target == old_label:
                             # I5: the alias pointed at the replaced object => follows the replacement
-                            new = w.objs[new_label]
-                            if new.__class__.__name__ == "Alias" and new._target is None and alias._target is None and alias.target_path == at:
+                            if new.__class__.__name__ == "Alias" and alias._target is None and alias.target_path == at:
                                 # the replacement is an unresolved alias: following it by path, unresolved like it, is the
                                 # all-or-nothing form of "follows" (C06); dereferencing reaches the replacement
                                 w.m_target[al_label] = None
@@ -382,12 +396,23 @@ class Step:
                             elif alias.target_path != at:
                                 viols.append((f"inv/I5-target_path/{api}/{kf}", f"alias {apath} follows replaced {at} but target_path is {alias.target_path!r}, not {at!r}", {"target_path": alias.target_path, "expected": at}))
                             w.m_target[al_label] = new_label
-                            if w.objs[new_label].__class__.__name__ == "Alias":
+                            if new.__class__.__name__ == "Alias":
                                 w.loose.add(al_label)  # a back-reference can only be registered if the new alias resolves *now*
                             else:
                                 w.loose.discard(al_label)
-                        else:
-                            w.m_target[al_label] = "?"  # stale back-reference: implementation may or may not move it
+                        elif is_alias_label(was_target) and chain_end(al_label) == old_label:
+                            # an alias reaching the replaced object THROUGH other aliases: Griffe lists it on the final target, so it may be
+                            # re-pointed at the replacement directly (resolved, or by path when the replacement is an alias), or stay on its
+                            # intermediate alias; all keep "follows" true
+                            if alias._target is new:
+                                w.m_target[al_label] = new_label
+                                w.loose.discard(al_label)
+                            elif new.__class__.__name__ == "Alias" and alias._target is None and alias.target_path == at:
+                                w.m_target[al_label] = None
+                                w.loose.discard(al_label)
+                        elif was_target not in (None, "?") and was_target != new_label and alias._target is new:
+                            # it did not point at the replaced object (a stale back-reference: re-targeted elsewhere since)
+                            viols.append((f"inv/I5-stolen/{api}/{kf}", f"alias {apath} pointed at #{was_target}, not at the replaced {at}, and was dragged to the replacement", None))
             return i_out, m_out, True, viols
         if kind == "setempty":
             api = op[1]
@@ -771,7 +796,13 @@ def expand(hist, tier):
     pre = {(k, subj) for k, subj, _ in check_state(w0, tier)}
     out = []
     for oi, op in enumerate(ops):
-        r = _transition(hist, op, tier, pre)
+        try:
+            with sandbox.time_limit(20):
+                r = _transition(hist, op, tier, pre)
+        except sandbox.CaseTimeout:
+            # "no access loops": an operation (or the look at the state after it) that does not come back is a violation, not a stuck check
+            out.append((oi, "hang", "HANG:" + repr((hist, oi)), [(f"hang/{_tag(op)}", f"{' '.join(map(str, op))}: no answer within 20 s", None)], False))
+            continue
         if r is None:
             continue
         i_out, viols, w = r
